@@ -264,6 +264,7 @@ class TunnelHTTPConnection(ConnectionInterface):
 
     def handle_request(self, request: Request) -> Response:
         timeouts = request.extensions.get("timeout", {})
+        sni_hostname = request.extensions.get("sni_hostname", None)
         timeout = timeouts.get("connect", None)
 
         with self._connect_lock:
@@ -309,7 +310,8 @@ class TunnelHTTPConnection(ConnectionInterface):
 
                 kwargs = {
                     "ssl_context": ssl_context,
-                    "server_hostname": self._remote_origin.host.decode("ascii"),
+                    "server_hostname": sni_hostname
+                    or self._remote_origin.host.decode("ascii"),
                     "timeout": timeout,
                 }
                 try:
